@@ -260,6 +260,19 @@ def run(ctx, lean_ok):
             m = mixgen.masses(r, n)
             T, P = mixgen.state(r)
             e = mixgen.eos_args(fm)
+            # the library routines take delta as given (dbm.FluidMixture stores a user table unchanged): half of the
+            # constant-delta cases hand over a NON-symmetric table (upper-triangular as typed in from a PVT report, or
+            # independently drawn halves), which separates row sums from column sums in the mixing rule
+            if d['delta_mode'] == 'const' and n >= 2 and r.random() < 0.5:
+                dl = np.array(e['delta'], dtype=float, copy=True)
+                if r.random() < 0.5:
+                    dl = np.triu(dl)
+                else:
+                    for i_ in range(n):
+                        for j_ in range(i_):
+                            dl[i_, j_] = r.uniform(-0.05, 0.15)
+                e['delta'] = dl
+                d = dict(d, delta_mode='asym')
             # the library routines take the acentric factors as an argument: exercise the omega > 0.49 branch of the
             # modified Peng-Robinson m(omega) (every database compound has omega <= 0.49) and both sides of its edge
             u = r.random()
